@@ -76,9 +76,7 @@ fn spec_atom(a: &Atom, hay: &[u8], base: &Config, idx: Option<&mut Vec<u32>>) ->
     }
 }
 
-/// two-atom pattern: matches iff every positive atom matches and no negated atom's inner match
-/// succeeds; score = sum of positive scores; indices variant: same score, indices appended in atom order
-pub fn pattern_two_atoms<const H: usize, const K1: u8, const NEG1: bool, const K2: u8, const NEG2: bool>() {
+fn two_atom_inputs<const H: usize, const K1: u8, const NEG1: bool, const K2: u8, const NEG2: bool>() -> ([u8; H], Atom, Atom, Config) {
     let hay: [u8; H] = kani::any();
     let mut k = 0;
     while k < H {
@@ -88,27 +86,49 @@ pub fn pattern_two_atoms<const H: usize, const K1: u8, const NEG1: bool, const K
     let a1 = any_atom::<1>(K1, NEG1);
     let a2 = any_atom::<2>(K2, NEG2);
     let (base, _) = base_config(0);
+    (hay, a1, a2, base)
+}
+
+/// two-atom pattern, score: matches iff every positive atom matches and no negated atom's inner
+/// match succeeds; score = sum of the positive atoms' scores
+pub fn pattern_score_two_atoms<const H: usize, const K1: u8, const NEG1: bool, const K2: u8, const NEG2: bool>() {
+    let (hay, a1, a2, base) = two_atom_inputs::<H, K1, NEG1, K2, NEG2>();
     let e1 = spec_atom(&a1, &hay, &base, None);
     let e2 = spec_atom(&a2, &hay, &base, None);
     let expect: Option<u32> = match (e1, e2) {
         (Some(x), Some(y)) => Some(x as u32 + y as u32),
         _ => None,
     };
-    let pat = Pattern { atoms: vec![a1.clone(), a2.clone()] };
+    let pat = Pattern { atoms: vec![a1, a2] };
     let mut m = small_matcher(base.clone(), crate::fuzzy_optimal::verif_optimal::SLAB);
     // the caller's matcher may carry any case/normalisation setting from earlier use
     m.config.ignore_case = kani::any();
     m.config.normalize = kani::any();
     let r = pat.score(Utf32Str::Ascii(&hay), &mut m);
     assert!(r == expect, "pattern score == conjunction of atoms, negated atoms contribute 0, positive scores add up");
-    // indices variant
+    kani::cover!(r.is_some());
+    std::mem::forget(m);
+}
+
+/// two-atom pattern, indices variant: same decision and score as the conjunction, each positive
+/// atom's indices appended in atom order, negated atoms append nothing
+pub fn pattern_indices_two_atoms<const H: usize, const K1: u8, const NEG1: bool, const K2: u8, const NEG2: bool>() {
+    let (hay, a1, a2, base) = two_atom_inputs::<H, K1, NEG1, K2, NEG2>();
+    let mut want = Vec::with_capacity(8);
+    let e1 = spec_atom(&a1, &hay, &base, Some(&mut want));
+    let e2 = if e1.is_some() { spec_atom(&a2, &hay, &base, Some(&mut want)) } else { None };
+    let expect: Option<u32> = match (e1, e2) {
+        (Some(x), Some(y)) => Some(x as u32 + y as u32),
+        _ => None,
+    };
+    let pat = Pattern { atoms: vec![a1, a2] };
+    let mut m = small_matcher(base.clone(), crate::fuzzy_optimal::verif_optimal::SLAB);
+    m.config.ignore_case = kani::any();
+    m.config.normalize = kani::any();
     let mut idx = Vec::with_capacity(8);
     let ri = pat.indices(Utf32Str::Ascii(&hay), &mut m, &mut idx);
-    assert!(ri == expect, "the indices variant returns the same score");
+    assert!(ri == expect, "the indices variant returns the score of the conjunction");
     if ri.is_some() {
-        let mut want = Vec::with_capacity(8);
-        let _ = spec_atom(&a1, &hay, &base, Some(&mut want));
-        let _ = spec_atom(&a2, &hay, &base, Some(&mut want));
         assert!(idx.len() == want.len(), "each positive atom's indices are appended, negated atoms append nothing");
         let mut k = 0;
         while k < want.len() {
@@ -116,7 +136,7 @@ pub fn pattern_two_atoms<const H: usize, const K1: u8, const NEG1: bool, const K
             k += 1;
         }
     }
-    kani::cover!(r.is_some());
+    kani::cover!(ri.is_some());
     std::mem::forget(m);
 }
 
